@@ -1,5 +1,5 @@
 SPECIFICATION Spec
-CONSTANTS MaxLen = 2
+CONSTANTS MaxLen = 3
  Numbers <- NumbersSmall
  Words <- WordsSmall
 INVARIANT Trichotomy
